@@ -334,7 +334,7 @@ def _symm(ctx, prop):
         fl = {'C11': ('LambertConformalConic.hpp', 'AlbersEqualArea.cpp', 'AlbersEqualArea.hpp', 'LambertConformalConic.cpp'),
               'C09': ('DAuxLatitude.hpp', 'DAuxLatitude.cpp'), 'C15': ('DAuxLatitude.hpp', 'DAuxLatitude.cpp')}[prop]
         lim, nlim = limits.rule_LIM1(ctx, fl)
-        lim.floor('removable singularities judged', nlim, 6 if prop == 'C11' else 1)
+        lim.floor('removable singularities judged', nlim, 4 if prop == 'C11' else 1)  # 7 on the tree; rewriting a ternary as if/else removes a site
         out.append(lim)
     if prop == 'C11':
         from .rules import offsets
